@@ -153,6 +153,8 @@ def find_docstring_guards(an: Analysis, V=(3, 10)) -> List[dict]:
             if not (isinstance(t.slice, ast.Constant) and t.slice.value == 0 and isinstance(t.value, ast.Name)):
                 continue
             tv = it.value_at(t.value)
+            if not tv:  # statement pruned as unreachable by the interpreter: fall back to the parameter's summary
+                tv = param_values(it, f, t.value.id)
             if not (tv & tabs):
                 continue
             tests = guards_of(f.module, f, st)
@@ -172,6 +174,14 @@ def find_docstring_guards(an: Analysis, V=(3, 10)) -> List[dict]:
             res.append({"fn": f.qual, "kind": kind, "test": test, "block": block, "table": t.value.id, "arg": arg,
                         "where": loc(f.module, st), "stmt": st})
     return res
+
+
+def param_values(it, f: FunctionInfo, name: str):
+    out = set()
+    for (q, ctx), summ in it.summaries.items():
+        if q == f.qual:
+            out |= summ["args"].get(name, frozenset())
+    return frozenset(out)
 
 
 def _param_ann(f: FunctionInfo, name: str):
